@@ -85,6 +85,8 @@ def oracle(seq, st, ops, obs):
             return f"kernel_string {v!r} does not describe the current rotation"
         if op[0] == "get_domain" and not isinstance(v, Err):
             l = op[1]
+            if l[0] >= len(strands) or l[1] >= len(strands[l[0]]):
+                return f"get_domain{tuple(l)} = {v} although the current rotation has no such locus"
             if v != strands[l[0]][l[1]]:
                 return f"get_domain{tuple(l)} = {v}"
         if op[0] == "rotate" and not isinstance(v, Err):
